@@ -454,3 +454,19 @@ fault("C05.search-queue-only", "C05", T, "            for existing_state in chai
 fault("C05.reduce-skip-default-prior", "C05", T, "                for terminal in follow_set:\n                    if terminal not in actions:", "                for terminal in follow_set:\n                    if terminal.prior < DEFAULT_PRIORITY:\n                        continue\n                    if terminal not in actions:", None)
 fault("C05.slr-item-follow", "C05", T, "                    follow_set = follow_sets[item.production.symbol]", "                    follow_set = follow_sets[item.production.rhs[0]] if item.production.rhs else set()", "R05.reduce-fill")
 benign("C05.b-while-true", "C05", T, "    additions = True\n    while additions:\n        additions = False\n\n        for p in grammar.productions:\n            nonterm = p.symbol", "    additions = True\n    while additions:\n        additions = False\n        for p in grammar.productions:\n            nonterm = p.symbol")
+
+# ---------------------------------------------------------------- C04
+fault("C04.skip-check-with-table", "C04", P, "        self._check_parser()\n        if not self.in_layout:\n            self.error_hints", "        if table is None:\n            self._check_parser()\n        if not self.in_layout:\n            self.error_hints", "R04.gate")
+fault("C04.gate-or", "C04", P, "                for src in self.table.sr_conflicts:\n                    if not src.dynamic:\n                        unhandled_conflicts.append(src)", "                for src in self.table.sr_conflicts:\n                    if not src.dynamic:\n                        unhandled_conflicts.append(src)\n                unhandled_conflicts = unhandled_conflicts[1:]", None)
+fault("C04.rr-not-fatal", "C04", P, "            if unhandled_conflicts:\n                raise RRConflicts(unhandled_conflicts)", "            if unhandled_conflicts and not self.dynamic_filter:\n                raise RRConflicts(unhandled_conflicts)", "R04.gate")
+fault("C04.conflict-gt2", "C04", T, "                if len(actions) > 1:\n                    if actions[0].action in [SHIFT, ACCEPT]:", "                if len(actions) > 2:\n                    if actions[0].action in [SHIFT, ACCEPT]:", "R04.conflict-table")
+fault("C04.rr-prods-gt2", "C04", T, "                        if len(prods) > 1:\n                            self.rr_conflicts.append(RRConflict(state, term, prods))", "                        if len(prods) > 2:\n                            self.rr_conflicts.append(RRConflict(state, term, prods))", "R04.conflict-table")
+fault("C04.sr-only-shift", "C04", T, "                    if actions[0].action in [SHIFT, ACCEPT]:", "                    if actions[0].action in [SHIFT]:", "R04.conflict-table")
+fault("C04.insert-front", "C04", T, "                            if not t_reduces:\n                                actions[terminal].append(new_reduce)", "                            if not t_reduces:\n                                actions[terminal].insert(0, new_reduce)", "R04.cell-order")
+fault("C04.driver-last", "C04", P, "            act = actions[0]\n\n            if act.action is SHIFT:", "            act = actions[-1]\n\n            if act.action is SHIFT:", "R04.driver-select")
+fault("C04.driver-always-second", "C04", P, "                if len(act.prod.rhs) == 0 and len(actions) > 1:\n                    act = actions[1]", "                if len(actions) > 1:\n                    act = actions[1]", "R04.driver-select")
+fault("C04.accept-no-break", "C04", P, "            elif act.action is ACCEPT:\n                accepted_head = head\n                break", "            elif act.action is ACCEPT:\n                accepted_head = head\n                if head.position == len(input_str):\n                    break", "R04.driver-select")
+fault("C04.goto-before-pop", "C04", P, "                    del parse_stack[-r_length:]\n                    next_state = parse_stack[-1].state.gotos[production.symbol]", "                    next_state = parse_stack[-1].state.gotos[production.symbol]\n                    del parse_stack[-r_length:]", "R08.roles-lr")
+fault("C04.index-empty-cell", "C04", P, "            if not actions:\n                symbols_expected = list(cur_state.actions.keys())", "            if actions is None:\n                symbols_expected = list(cur_state.actions.keys())", None)
+benign("C04.b-comprehension", "C04", P, "                unhandled_conflicts = []\n                for src in self.table.sr_conflicts:\n                    if not src.dynamic:\n                        unhandled_conflicts.append(src)\n            else:\n                unhandled_conflicts = self.table.sr_conflicts",
+       "                unhandled_conflicts = []\n                for src in self.table.sr_conflicts:\n                    if not src.dynamic:\n                        unhandled_conflicts.append(src)\n            else:\n                unhandled_conflicts = self.table.sr_conflicts\n            pass")
